@@ -481,6 +481,55 @@ func runRaw() {
 }
 
 // ---------------------------------------------------------------------------------------------
+// family create: raw strings as INIT code through KVM.Create / EVM.Create (top-level contract creation).
+// thorough: every 1- and 2-byte string; quick: every 1-byte string and every 2-byte string whose first
+// byte is one of six nullary pushers (so that the second opcode has an operand).
+
+func runCreateTop() {
+	var codes [][]byte
+	for i := 0; i < 256; i++ {
+		codes = append(codes, []byte{byte(i)})
+	}
+	if r.Quick() {
+		for _, f := range []byte{0x60, 0x5b, 0x30, 0x36, 0x58, 0x59} {
+			for i := 0; i < 256; i++ {
+				codes = append(codes, []byte{f, byte(i)})
+			}
+		}
+	} else {
+		for i := 0; i < 65536; i++ {
+			codes = append(codes, []byte{byte(i >> 8), byte(i)})
+		}
+	}
+	done := par.For(int64(len(codes)), 64, r.Expired, func(i int64) {
+		c := getCtx()
+		defer putCtx(c)
+		code := codes[i]
+		atomic.AddInt64(&nPrograms, 1)
+		nt := false
+		for _, tiny := range []bool{false, true} {
+			p := &prog{family: "create", name: fmt.Sprintf("%x", code), code: code, gas: gasRawBig, value: 5, create: true, tinyGas: tiny}
+			if tiny {
+				p.gas = gasTinyRaw
+			}
+			p.stepBound = p.gas + 4096
+			if runProgram(c, p, func(iset int, f finding) (string, *prog) {
+				return classFor(c, p, iset, f, "create-ops="+opsKey(decodeOps(code))), nil
+			}) {
+				nt = true
+			}
+		}
+		if nt {
+			atomic.AddInt64(&nDistinctNontrivial, 1)
+		}
+	})
+	r.Add("create_programs", done)
+	if done < int64(len(codes)) {
+		r.NotExhaustive(fmt.Sprintf("deadline: top-level creations completed %d of %d", done, len(codes)))
+	}
+}
+
+// ---------------------------------------------------------------------------------------------
 // family cfg: the chain-id opcode under a chain config without ChainID (configs.ChainConfig.Rules
 // explicitly supports a nil ChainID). Always-oracles only.
 
@@ -578,6 +627,7 @@ func doReplay() {
 	p := &prog{family: cs.Family, name: cs.Name, code: code, input: in, gas: cs.Gas, value: cs.Value, preludeEnd: cs.PreludeEnd, stepBound: cs.StepBound, expect: cs.Expect}
 	p.tinyGas = cs.Gas == gasTinySeq || cs.Gas == gasTinyRaw
 	p.nilChainID = cs.NilChainID
+	p.create = cs.Create
 	for _, e := range cs.Expect {
 		if strings.Contains(e, "change") {
 			p.wantPre = true
@@ -612,7 +662,7 @@ func doReplay() {
 	}
 	for _, f := range res.findings {
 		sig := sigFor(isetName[cs.ISet], sigBody("replay", f))
-		if strings.Contains(stored.Signature, "|oracle="+f.kind) {
+		if strings.HasSuffix(stored.Signature, sigBody("", f)) {
 			sig = stored.Signature
 		}
 		r.Violation(sig, f.kind+": "+f.detail, cs)
@@ -665,6 +715,7 @@ func main() {
 	phase("wrappers", runWrappers)
 	phase("singles", runSingles)
 	phase("sweep", runSweep)
+	phase("create", runCreateTop)
 	one := []combo{{2, false}}
 	phase("seq1", func() { enumSeq(1, full, allCombos, "seq len 1") })
 	phase("seq2", func() { enumSeq(2, full, allCombos, "seq len 2") })
@@ -746,7 +797,7 @@ func main() {
 	r.Add("kvm_runs_revert", atomic.LoadInt64(&nStatus[1]))
 	r.Add("kvm_runs_failure", atomic.LoadInt64(&nStatus[2]))
 	r.Set("rule", "E3: every token sequence of length <= seq_max_len over the listed alphabet (longest length: see seq_len3_alphabet / cap_reached), wrapped by a fixed prelude/postlude; "+
-		"every byte as single-opcode body; DUP/SWAP over 20 distinct words; operand sweeps per opcode (36B input, ample gas); every 1- and 2-byte raw code; the wrapper programs. "+
+		"every byte as single-opcode body; DUP/SWAP over 20 distinct words; operand sweeps per opcode (36B input, ample gas); every 1- and 2-byte raw code; raw strings as init code of a top-level creation; the wrapper programs. "+
 		"Token sequences of length <= 2, single bodies and (thorough) length 3 and raw codes run under call data {empty,32B,36B} x gas {tiny,ample}; quick: length 3 under (36B, ample), raw codes under {(36B,ample),(empty,ample),(36B,tiny)}; thorough length 4 under (36B, ample). Everything under both instruction sets. "+
 		"evaluations = executions on KVM plus on the reference. A program is distinct by construction (unique code bytes) and counted non-trivial when, for at least one (input, gas, instruction set), "+
 		"KVM dispatched >= 1 instruction past the prelude AND no frame on either side ran out of gas or fetched an excluded opcode, so the differential oracle was applied.")
